@@ -7,4 +7,9 @@ require (
 	golang.org/x/tools v0.24.0
 )
 
+require (
+	golang.org/x/mod v0.20.0 // indirect
+	golang.org/x/sync v0.8.0 // indirect
+)
+
 replace github.com/reedom/convergen => /repo
